@@ -32,13 +32,31 @@ def showMagic : Magic → String
   | .none => "none" | .nitf21 => "nitf21" | .nitf20 => "nitf20" | .nitfOther => "nitfOther"
   | .cphd => "cphd" | .crsd => "crsd" | .sio => "sio"
 
+def parsePv : String → Option PvType
+  | "int" => some .int | "b" => some .b | "si" => some .si | "r" => some .r | "c" => some .c | _ => none
+def showPv : PvType → String
+  | .int => "int" | .b => "b" | .si => "si" | .r => "r" | .c => "c"
+def parseSub : Char → Option SubCat
+  | 'i' => some .i | 'q' => some .q | 'm' => some .m | 'p' => some .p | 'o' => some .other | _ => none
+def showSub : SubCat → String
+  | .i => "i" | .q => "q" | .m => "m" | .p => "p" | .other => "o"
+
+/-- image tokens: c | o | d<k> | g.<s|n>.<pv>.<band labels, one letter each of i q m p o, `-` for none> -/
 def parseImg (s : String) : Option Img :=
-  if s == "c" then some .sicdSeg
+  if s.startsWith "g." then
+    match s.splitOn "." with
+    | [_, sar, pv, bands] => do
+      let sr ← (if sar == "s" then some true else if sar == "n" then some false else none)
+      let bs ← (if bands == "-" then some [] else bands.toList.mapM parseSub)
+      pure (.gen ⟨sr, ← parsePv pv, bs⟩)
+    | _ => none
+  else if s == "c" then some .sicdSeg
   else if s == "o" then some .other
   else if s.startsWith "d" then (s.drop 1).toNat?.map .siddSeg
   else none
 def showImg : Img → String
   | .sicdSeg => "c" | .other => "o" | .siddSeg k => s!"d{k}"
+  | .gen h => s!"g.{if h.sar then "s" else "n"}.{showPv h.pv}.{if h.bands.isEmpty then "-" else String.join (h.bands.map showSub)}"
 
 def parseListTok {α} (f : String → Option α) (s : String) : Option (List α) :=
   if s == "-" then some [] else (s.splitOn ",").mapM f
